@@ -859,15 +859,16 @@ fn cmd_run(prop: &str, tier: &str, seed: u64, workers: u64, hists_override: Opti
     if harness_error {
         return 2;
     }
-    if agg.hists == 0 || nontrivial.len() < 2 {
-        eprintln!("HARNESS-ERROR: nothing explored (histories {}, non-trivial {})", agg.hists, nontrivial.len());
-        return 2;
-    }
+    // a confirmed violation is reported even when every history stopped at it before doing anything non-trivial
     if !lines.is_empty() {
         for l in &lines {
             println!("{l}");
         }
         return 1;
+    }
+    if agg.hists == 0 || nontrivial.len() < 2 {
+        eprintln!("HARNESS-ERROR: nothing explored (histories {}, non-trivial {})", agg.hists, nontrivial.len());
+        return 2;
     }
     0
 }
